@@ -6,6 +6,7 @@ import (
 	"fmt"
 	"io"
 	"runtime"
+	"sync"
 	"time"
 
 	"github.com/fiorix/go-diameter/v4/diam"
@@ -29,10 +30,11 @@ func init() {
 			{Name: "conn", Weight: 3, Bubble: true, Run: c05Conn},
 			{Name: "multi-conn", Weight: 2, Bubble: true, Run: c05Multi},
 			{Name: "conn-timeout", Weight: 1, Bubble: true, Run: c05Timeout},
+			{Name: "conn-sequence", Weight: 1, Bubble: true, Run: c05Sequence},
 			{Name: "sweep-splits", Run: c05Sweep, SweepN: c05SweepN, QuickSweep: true, Exhaustive: true,
 				SweepNote: "5 fixed short streams (<=512 B): every single split point, the all-1-byte fragmentation, every truncation offset (EOF and read error), and a header declaring each length 0..19 at each message position"},
 		},
-		MustProbes: []string{"pooled-body", "fresh-body", "split-in-header", "split-in-body", "badlen", "trunc-in-header", "trunc-in-body", "trunc-after-header", "conn-bufio-multi", "multi-conn-interleaved", "read-deadline-passed"},
+		MustProbes: []string{"pooled-body", "fresh-body", "split-in-header", "split-in-body", "badlen", "trunc-in-header", "trunc-in-body", "trunc-after-header", "conn-bufio-multi", "multi-conn-interleaved", "read-deadline-passed", "sequential-connections"},
 	})
 }
 
@@ -970,6 +972,95 @@ func c05Timeout(e *Env) {
 		e.Fail("C05/closed-without-timeout", "the connection was closed although every read finished within ReadTimeout %v", T)
 	}
 	sc.EndRead(io.EOF, false)
+	lis.Close()
+	e.Quiesce()
+}
+
+// ---------------------------------------------------------------- connections one after another
+
+// c05Sequence: a connection dies with unread bytes behind an undecodable message;
+// connections accepted afterwards must see their own bytes only.
+func c05Sequence(e *Env) {
+	t := e.T
+	e.TrustWait = true
+	e.maxStep = 100
+	lis := newSimListener(e)
+	mux := diam.NewServeMux()
+	var mu sync.Mutex
+	var got []*diam.Message
+	mux.HandleFunc("ALL", func(_ diam.Conn, m *diam.Message) {
+		mu.Lock()
+		got = append(got, m)
+		mu.Unlock()
+	})
+	srv := &diam.Server{Handler: mux, Dict: simDict()}
+	go srv.Serve(lis)
+	rounds := t.Range(2, 4)
+	seq := 0
+	for r := 0; r < rounds && !e.Failed(); r++ {
+		sc := newSimConn(e, fmt.Sprintf("c%d", r), drawAddr(t, 3868), drawAddr(t, 40000+r))
+		lis.Connect(sc)
+		n := t.Range(1, 3)
+		var msgs []c05Msg
+		var data []byte
+		for k := 0; k < n; k++ {
+			m := genC05Msg(t, seq, []int{0, 24, 200, 1200}[t.Draw(4)])
+			seq++
+			msgs = append(msgs, m)
+			data = append(data, m.bytes...)
+		}
+		endKind := []string{"eof", "badlen", "unknown-command"}[t.Draw(3)]
+		if r == rounds-1 {
+			endKind = "eof"
+		}
+		switch endKind {
+		case "badlen":
+			data = append(data, RefMsg{Cmd: 900, Flags: 0x80, HbH: 7, E2E: 7, Override: true, DeclLen: t.Draw(20)}.Bytes()[:20]...)
+		case "unknown-command":
+			data = append(data, RefMsg{Cmd: 7777, Flags: 0x80, HbH: 7, E2E: 7}.Bytes()...)
+		}
+		if endKind != "eof" {
+			// bytes the dead connection never gets to read: they look like valid messages
+			for k := 0; k < t.Range(1, 3); k++ {
+				data = append(data, genC05Msg(t, 900+seq, []int{0, 40}[t.Draw(2)]).bytes...)
+				seq++
+			}
+			e.Fault("dies-with-unread-input")
+		}
+		mu.Lock()
+		got = nil
+		mu.Unlock()
+		e.Act("conn", "round %d msgs=%d end=%s bytes=%d", r, n, endKind, len(data))
+		if t.Chance(1, 2) {
+			sc.Deliver(data)
+		} else {
+			cut := t.Range(1, len(data))
+			sc.Deliver(data[:cut])
+			e.Quiesce()
+			sc.Deliver(data[cut:])
+		}
+		e.Quiesce()
+		sc.EndRead(io.EOF, false)
+		e.Quiesce()
+		mu.Lock()
+		g := append([]*diam.Message{}, got...)
+		mu.Unlock()
+		if len(g) != len(msgs) {
+			e.Fail("C05/conn-dispatch-count/sequence", "connection %d: %d messages dispatched, its peer sent %d valid ones (end=%s; earlier connections died with unread input)", r, len(g), len(msgs), endKind)
+			break
+		}
+		for i, m := range g {
+			if d := compareMsg(m, msgs[i]); d != "" {
+				e.Fail("C05/conn-wrong-message/sequence", "connection %d message #%d: %s (bytes of an earlier connection?)", r, i, d)
+				break
+			}
+		}
+		if !sc.Closed() {
+			e.Fail("C05/conn-not-closed/sequence", "connection %d ended (%s) and was not closed", r, endKind)
+		}
+		e.NonTrivial()
+	}
+	e.Probe("sequential-connections")
 	lis.Close()
 	e.Quiesce()
 }
